@@ -148,13 +148,13 @@ Proof. unfold between. intros H1 H2 H. specialize (H1 (fst x)). specialize (H2 (
 Ltac defl := repeat progress (rewrite ?deflabels_app; cbn [deflabels app]).
 
 Lemma pop_value_nolabels r b : deflabels (fst (pop_value r b)) = [].
-Proof. destruct b; reflexivity. Qed.
+Proof. destruct b as [|[]| |]; reflexivity. Qed.
 Lemma finish_opd_nolabels E top r keep code :
   deflabels code = [] -> deflabels (fst (finish_opd E top r keep code)) = [].
 Proof. intros H. unfold finish_opd. destruct keep; cbn [fst]; defl; rewrite H; reflexivity. Qed.
 Lemma eval_opd_nolabels E o : forall top r keep, deflabels (fst (eval_opd E top r o keep)) = [].
 Proof.
-  induction o as [z|i|op x IHx y IHy|u x IHx|g]; intros top r keep; try reflexivity.
+  induction o as [z|i|op x IHx y IHy|u x IHx|g|yj]; intros top r keep; try reflexivity.
   - cbn [eval_opd].
     specialize (IHx top R0 (negb (is_safe y))). destruct (eval_opd E top R0 x (negb (is_safe y))) as [c1 lb].
     specialize (IHy (top_after top lb) R1 false). destruct (eval_opd E (top_after top lb) R1 y false) as [c2 rb].
@@ -388,13 +388,14 @@ Proof. intros N. apply lookup_notin. rewrite deflabels_labdefs. exact N. Qed.
 Definition bub_of (E : env) (top : Z) (rg : reg) (o : iopd) (keep : bool) : bubble :=
   match o with
   | OLit z => BuImm z
-  | OVar i => BuLocal (int_off E i)
+  | OVar i => BuLocal false (int_off E i)
+  | OByte v => BuLocal true (byte_off E v)
   | OGlob g => if keep then BuPushed (top + wsize E) else BuReg (RGlob g)
   | _ => if keep then BuPushed (top + wsize E) else BuReg rg
   end.
 Lemma eval_opd_bub E o top rg keep : snd (eval_opd E top rg o keep) = bub_of E top rg o keep.
 Proof.
-  destruct o as [z|i|op x y|u x|g]; try reflexivity; cbn [eval_opd bub_of].
+  destruct o as [z|i|op x y|u x|g|yj]; try reflexivity; cbn [eval_opd bub_of].
   - destruct (eval_opd E top R0 x (negb (is_safe y))) as [c1 lb].
     destruct (eval_opd E (top_after top lb) R1 y false) as [c2 rb].
     destruct (pop_value R1 rb) as [c2' rhs]. destruct (pop_value R0 lb) as [c3 lhs].
@@ -406,7 +407,7 @@ Qed.
 Lemma top_after_bub E top rg o keep :
   top_after top (bub_of E top rg o keep) = top + Z.of_nat (pushed o keep) * wsize E.
 Proof.
-  unfold pushed. destruct o, keep; cbn [bub_of top_after is_safe is_glob andb negb orb]; change (Z.of_nat 0) with 0; change (Z.of_nat 1) with 1; lia.
+  unfold pushed. destruct o, keep; cbn [bub_of top_after is_safe is_vac is_glob andb negb orb]; change (Z.of_nat 0) with 0; change (Z.of_nat 1) with 1; lia.
 Qed.
 Lemma room_le (a b : nat) (wd X : Z) : 0 <= wd -> (a <= b)%nat -> Z.of_nat b * wd <= X -> Z.of_nat a * wd <= X.
 Proof. intros Hw L H. assert (Z.of_nat a * wd <= Z.of_nat b * wd) by (apply Z.mul_le_mono_nonneg_r; lia). lia. Qed.
@@ -442,6 +443,7 @@ Fixpoint sval (m : mem) (o : iopd) : Z :=
   | OUn UNeg x => sgn (wrap (- sval m x))
   | OUn UPos x => sval m x
   | OGlob g => sgn (lw m (a_glob R g))
+  | OByte v => lb m (FP m - byte_off E v)
   end.
 Definition bval (m : mem) (v : bloc) : Z :=
   match v with BLocal j => lb m (FP m - bool_off E j) | BGlobal h => lb m (a_bglob R h) end.
@@ -463,16 +465,21 @@ Definition wval (m : mem) (o : iopd) : Z :=
   | OUn UNeg x => wrap (- sval m x)
   | OUn UPos x => wrap (sval m x)
   | OGlob g => lw m (a_glob R g)
+  | OByte v => lb m (FP m - byte_off E v)
   end.
 
 (* MEMORY EFFECT of the lowered operand code, as a function (mirrors eval_opd) *)
 Definition pop_mem (r : reg) (b : bubble) (m : mem) : mem :=
-  match b with BuLocal off | BuPushed off => sw m (ra r) (lw m (FP m - off)) | _ => m end.
+  match b with
+  | BuLocal false off | BuPushed off => sw m (ra r) (lw m (FP m - off))
+  | BuLocal true off => sw m (ra r) (lb m (FP m - off))
+  | _ => m
+  end.
 Definition push_mem (keep : bool) (top : Z) (rg : reg) (m : mem) : mem :=
   if keep then sw m (FP m - (top + w)) (lw m (ra rg)) else m.
 Fixpoint eval_mem (top : Z) (rg : reg) (o : iopd) (keep : bool) (m : mem) : mem :=
   match o with
-  | OLit _ | OVar _ => m
+  | OLit _ | OVar _ | OByte _ => m
   | OGlob g => if keep then sw m (FP m - (top + w)) (lw m (a_glob R g)) else m
   | OArith op x y =>
       let kx := negb (is_safe y) in
@@ -579,6 +586,7 @@ Fixpoint oexp_ok (hi : Z) (m : mem) (o : iopd) : Prop :=
   | OArith op x y => op_ok op /\ oexp_ok hi m x /\ oexp_ok hi m y
   | OUn _ x => oexp_ok hi m x
   | OGlob g => gword_ok hi m g
+  | OByte v => slot_ok hi m (byte_off E v) 1
   end.
 (* the stack top of the expression being lowered *)
 Definition HI (m : mem) : Z := FP m - stack_top E.
@@ -608,6 +616,10 @@ Definition agree (hi : Z) (m m' : mem) : Prop :=
 Hypothesis Hw : 2 <= w.
 Hypothesis HwE : wsize E = w.
 Let Hw1 : 1 <= w. Proof. lia. Qed.
+Lemma half_ge_256 : 256 <= W / 2.
+Proof. rewrite (W_half w Hw1). change 256 with (2 ^ 8). apply Z.pow_le_mono_r; lia. Qed.
+Lemma lb_range m a : wf_mem m -> 0 <= lb m a < 256.
+Proof. intros Wf. unfold Machine.lb. apply Wf. Qed.
 
 Lemma agree_refl hi m : agree hi m m.
 Proof. split; [reflexivity|]. split; [tauto|]. reflexivity. Qed.
@@ -661,54 +673,61 @@ Lemma slot_ok_mono hi hi' m off n : hi' <= hi -> slot_ok hi m off n -> slot_ok h
 Proof. intros L [H1 [H2 [H3 H4]]]. unfold slot_ok. pose proof (dj_mono hi hi' _ _ L H4). tauto. Qed.
 Lemma oexp_ok_agree hi hi' m m' o : regs_ok m -> agree hi' m m' -> oexp_ok hi m o -> oexp_ok hi m' o.
 Proof.
-  intros L A. induction o as [z|i|op x IHx y IHy|u x IHx|g]; cbn [oexp_ok]; try tauto.
+  intros L A. induction o as [z|i|op x IHx y IHy|u x IHx|g|yj]; cbn [oexp_ok]; try tauto.
   - apply (slot_ok_agree hi hi'); assumption.
   - unfold gword_ok. rewrite (agree_inb hi' m m' _ _ A). tauto.
+  - apply (slot_ok_agree hi hi'); assumption.
 Qed.
 Lemma oexp_ok_mono hi hi' m o : hi' <= hi -> oexp_ok hi m o -> oexp_ok hi' m o.
 Proof.
-  intros L. induction o as [z|i|op x IHx y IHy|u x IHx|g]; cbn [oexp_ok]; try tauto.
+  intros L. induction o as [z|i|op x IHx y IHy|u x IHx|g|yj]; cbn [oexp_ok]; try tauto.
   - apply slot_ok_mono; assumption.
   - unfold gword_ok. intros [H1 [H2 H3]]. pose proof (dj_mono hi hi' _ _ L H3). tauto.
+  - apply slot_ok_mono; assumption.
 Qed.
 Lemma sval_agree hi m m' o : regs_ok m -> agree hi m m' -> oexp_ok hi m o -> sval m' o = sval m o.
 Proof.
-  intros L A. induction o as [z|i|op x IHx y IHy|u x IHx|g]; cbn [sval oexp_ok].
+  intros L A. induction o as [z|i|op x IHx y IHy|u x IHx|g|yj]; cbn [sval oexp_ok].
   - reflexivity.
   - intros [H1 [H2 [H3 H4]]]. rewrite (FP_agree hi m m' L A). f_equal. apply (agree_lw hi); assumption.
   - intros [_ [Hx Hy]]. now rewrite IHx, IHy.
   - intros Hx. destruct u; now rewrite IHx.
   - intros [H1 [H2 H3]]. f_equal. apply (agree_lw hi); assumption.
+  - intros [H1 [H2 [H3 H4]]]. rewrite (FP_agree hi m m' L A). apply (agree_lb hi); assumption.
 Qed.
 Lemma wval_agree hi m m' o : regs_ok m -> agree hi m m' -> oexp_ok hi m o -> wval m' o = wval m o.
 Proof.
-  intros L A. destruct o as [z|i|op x y|u x|g]; cbn [wval oexp_ok].
+  intros L A. destruct o as [z|i|op x y|u x|g|yj]; cbn [wval oexp_ok].
   - reflexivity.
   - intros [H1 [H2 [H3 H4]]]. rewrite (FP_agree hi m m' L A). apply (agree_lw hi); assumption.
   - intros [_ [Hx Hy]]. now rewrite (sval_agree hi m m' x L A Hx), (sval_agree hi m m' y L A Hy).
   - intros Hx. destruct u; now rewrite (sval_agree hi m m' x L A Hx).
   - intros [H1 [H2 H3]]. apply (agree_lw hi); assumption.
+  - intros [H1 [H2 [H3 H4]]]. rewrite (FP_agree hi m m' L A). apply (agree_lb hi); assumption.
 Qed.
 (* values are words, and their signed reading is the source value *)
 Lemma wval_range m o : wf_mem m -> inrange w (wval m o).
 Proof.
-  intros Wf. destruct o as [z|i|op x y|[|] x|g]; cbn [wval]; try (apply wrap_range; exact Hw1);
-  apply (lw_range w Hw1); exact Wf.
+  intros Wf. destruct o as [z|i|op x y|[|] x|g|yj]; cbn [wval]; try (apply wrap_range; exact Hw1);
+  try (apply (lw_range w Hw1); exact Wf).
+  unfold inrange. pose proof (lb_range m (FP m - byte_off E yj) Wf). pose proof (W_ge w Hw1). lia.
 Qed.
 Lemma sval_range hi m o : wf_mem m -> oexp_ok hi m o -> - (W / 2) <= sval m o < W / 2.
 Proof.
-  intros Wf. induction o as [z|i|op x IHx y IHy|u x IHx|g]; cbn [sval oexp_ok]; intros O.
+  intros Wf. induction o as [z|i|op x IHx y IHy|u x IHx|g|yj]; cbn [sval oexp_ok]; intros O.
   - exact O.
   - apply (sgn_range w Hw1). apply (lw_range w Hw1); exact Wf.
   - apply (sgn_range w Hw1). apply wrap_range; exact Hw1.
   - destruct u; [apply (sgn_range w Hw1); apply wrap_range; exact Hw1 | apply IHx; exact O].
   - apply (sgn_range w Hw1). apply (lw_range w Hw1); exact Wf.
+  - pose proof (lb_range m (FP m - byte_off E yj) Wf). pose proof half_ge_256. lia.
 Qed.
 Lemma sgn_wval hi m o : wf_mem m -> oexp_ok hi m o -> sgn (wval m o) = sval m o.
 Proof.
-  intros Wf O. destruct o as [z|i|op x y|[|] x|g]; cbn [wval sval oexp_ok] in *; try reflexivity.
+  intros Wf O. destruct o as [z|i|op x y|[|] x|g|yj]; cbn [wval sval oexp_ok] in *; try reflexivity.
   - apply (sgn_wrap_small w Hw1); exact O.
   - apply (sgn_wrap_small w Hw1). apply (sval_range hi); assumption.
+  - apply (sgn_small w). pose proof (lb_range m (FP m - byte_off E yj) Wf). pose proof half_ge_256. lia.
 Qed.
 Lemma bval_agree hi m m' j : regs_ok m -> agree hi m m' -> bslot_ok hi m j -> bval m' j = bval m j.
 Proof.
@@ -765,13 +784,15 @@ Proof. intros [->| ->]; cbn [regaddr]; auto. Qed.
 Definition bub_val (m : mem) (b : bubble) : Z :=
   match b with
   | BuImm z => wrap z
-  | BuLocal off | BuPushed off => lw m (FP m - off)
+  | BuLocal false off | BuPushed off => lw m (FP m - off)
+  | BuLocal true off => lb m (FP m - off)
   | BuReg r => lw m (ra r)
   end.
 Definition bub_ok (hi : Z) (m : mem) (b : bubble) : Prop :=
   match b with
   | BuImm _ => True
-  | BuLocal off | BuPushed off => slot_ok hi m off w
+  | BuLocal false off | BuPushed off => slot_ok hi m off w
+  | BuLocal true off => slot_ok hi m off 1
   | BuReg r => r = R0 \/ r = R1 \/ match r with RGlob g => gword_ok hi m g | _ => False end
   end.
 Definition resident (b : bubble) : bool := match b with BuReg _ => false | _ => true end.
@@ -797,25 +818,25 @@ Lemma bub_of_ok top rg o keep m : rg = R0 \/ rg = R1 -> regs_ok m -> room_ok top
   bub_ok (FP m - top_after top (bub_of E top rg o keep)) m (bub_of E top rg o keep).
 Proof.
   intros Hr L Ro O P. unfold pushed in P.
-  destruct o as [z|i|op x y|u x|g]; cbn [bub_of top_after bub_ok is_safe is_glob negb andb orb] in *; try exact I; try exact O;
+  destruct o as [z|i|op x y|u x|g|yj]; cbn [bub_of top_after bub_ok is_safe is_vac is_glob negb andb orb] in *; try exact I; try exact O;
     rewrite ?HwE; destruct keep; cbn [top_after bub_ok andb orb] in *; try (destruct Hr; auto; fail); try (right; right; exact O);
     apply pushed_slot_ok; try assumption; change (Z.of_nat 1) with 1 in P; lia.
 Qed.
 Lemma bub_ok_agree hi hi' m m' b : regs_ok m -> agree hi' m m' -> bub_ok hi m b -> bub_ok hi m' b.
 Proof.
-  intros L A. destruct b as [z|off|r|off]; cbn [bub_ok]; auto; try (apply (slot_ok_agree hi hi'); assumption).
+  intros L A. destruct b as [z|[|] off|r|off]; cbn [bub_ok]; auto; try (apply (slot_ok_agree hi hi'); assumption).
   intros [H|[H|H]]; auto. right; right. destruct r; auto. unfold gword_ok in *. rewrite (agree_inb hi' m m' _ _ A). exact H.
 Qed.
 Lemma bub_ok_mono hi hi' m b : hi' <= hi -> bub_ok hi m b -> bub_ok hi' m b.
 Proof.
-  intros L. destruct b as [z|off|r|off]; cbn [bub_ok]; auto; try (apply slot_ok_mono; assumption).
+  intros L. destruct b as [z|[|] off|r|off]; cbn [bub_ok]; auto; try (apply slot_ok_mono; assumption).
   intros [H|[H|H]]; auto. right; right. destruct r; auto. destruct H as [H1 [H2 H3]]. pose proof (dj_mono hi hi' _ _ L H3). unfold gword_ok. tauto.
 Qed.
 Lemma bub_val_agree hi m m' b : regs_ok m -> agree hi m m' -> resident b = true -> bub_ok hi m b ->
   bub_val m' b = bub_val m b.
 Proof.
-  intros L A Rs. destruct b; cbn [resident bub_ok bub_val] in *; try discriminate; try reflexivity;
-    intros [H1 [H2 [H3 H4]]]; rewrite (FP_agree hi m m' L A); apply (agree_lw hi); assumption.
+  intros L A Rs. destruct b as [z|[|] off|r|off]; cbn [resident bub_ok bub_val] in *; try discriminate; try reflexivity;
+    intros [H1 [H2 [H3 H4]]]; rewrite (FP_agree hi m m' L A); first [apply (agree_lw hi); assumption | apply (agree_lb hi); assumption].
 Qed.
 (* ================================================================================= *)
 (* D  the lowered code on the machine                                                 *)
@@ -969,9 +990,9 @@ Proof.
 Qed.
 Lemma lw_pop_other r b m a : 0 <= ra r -> 0 <= a -> (a + w <= ra r \/ ra r + w <= a) ->
   lw (pop_mem r b m) a = lw m a.
-Proof. intros Hr Ha D. destruct b; cbn [pop_mem]; try reflexivity; apply (lw_sw_other w Hw1); assumption. Qed.
+Proof. intros Hr Ha D. destruct b as [|[]| |]; cbn [pop_mem]; try reflexivity; apply (lw_sw_other w Hw1); assumption. Qed.
 Lemma inb_pop r b m a n : inb (pop_mem r b m) a n = inb m a n.
-Proof. destruct b; cbn [pop_mem]; try reflexivity; apply inb_sw. Qed.
+Proof. destruct b as [|[]| |]; cbn [pop_mem]; try reflexivity; apply inb_sw. Qed.
 
 Lemma pop_props r b hi m : r = R0 \/ r = R1 -> regs_ok m -> bub_ok hi m b ->
   let m' := pop_mem r b m in
@@ -995,9 +1016,23 @@ Proof.
                     (oval_st w cmem m fp (lo_if m L)) (oval_imm w cmem m _)) as A.
       rewrite (frame_addr m _ L O1) in A. specialize (A O3 Ir1).
       replace (p + (1 + 0)) with (p + 1) by lia. apply (runs_next act _ _ None A). }
-  destruct b as [z|off|r'|off]; cbn [bub_ok] in B; unfold m'; cbn [pop_mem sym_of pop_value snd bub_val].
+  assert (MemB : forall off, slot_ok hi m off 1 -> let m1 := sw m (ra r) (lb m (FP m - off)) in
+            agree lo m m1 /\ symval m1 (SReg r) = Some (lb m (FP m - off)) /\
+            forall p, plc [AInstr (ALbso r (SReg RFp) (SLit (- off)))] p -> runs (mk p m) [] (mk (p + (1 + 0)) m1)).
+  { intros off [O1 [O2 [O3 O4]]] m1. split; [|split].
+    - apply agree_sw; [exact Ir0|]. destruct (ra_cases r Hr) as [->| ->]; auto.
+    - cbn [symval]. unfold m1. rewrite inb_sw, Ir1. rewrite (lw_sw_same w Hw1) by exact Ir0. f_equal.
+      apply (wrap_small w). unfold inrange. pose proof (lb_range m (FP m - off) (lo_wf m L)). pose proof (W_ge w Hw1). lia.
+    - intros p P. cbn [plc res_ins res_sym regaddr] in P. destruct P as [C _].
+      pose proof (act_lbso p m (ra r) (St fp) (Imm (- off)) (FP m) (wrap (- off)) C
+                    (oval_st w cmem m fp (lo_if m L)) (oval_imm w cmem m _)) as A.
+      rewrite (frame_addr m _ L O1) in A. specialize (A O3 Ir1).
+      replace (p + (1 + 0)) with (p + 1) by lia. apply (runs_next act _ _ None A). }
+  destruct b as [z|[|] off|r'|off]; cbn [bub_ok] in B; unfold m'; cbn [pop_mem sym_of pop_value snd bub_val].
   - split; [apply agree_refl|]. split; [reflexivity|]. intros c s p F P. inversion F; subst. cbn [size].
     replace (p + 0) with p by lia. apply runs_refl.
+  - destruct (MemB off B) as [A [S C]]. split; [exact A|]. split; [exact S|].
+    intros c s p F P. inversion F; subst. cbn [size]. apply C. exact P.
   - destruct (Mem off B) as [A [S C]]. split; [exact A|]. split; [exact S|].
     intros c s p F P. inversion F; subst. cbn [size]. apply C. exact P.
   - split; [apply agree_refl|]. split.
@@ -1041,7 +1076,7 @@ Definition eval_spec (o : iopd) : Prop := forall top rg keep m,
 Lemma eval_mem_safe top rg o keep m : is_safe o = true -> is_glob o && keep = false -> eval_mem top rg o keep m = m.
 Proof. destruct o, keep; try discriminate; reflexivity. Qed.
 Lemma temps_pushed o keep : (pushed o keep <= temps o keep)%nat.
-Proof. unfold pushed. destruct o, keep; cbn [is_safe is_glob negb andb orb temps]; lia. Qed.
+Proof. unfold pushed. destruct o, keep; cbn [is_safe is_vac is_glob negb andb orb temps]; lia. Qed.
 
 Lemma pair_props x y : eval_spec x -> eval_spec y -> forall top m,
   regs_ok m -> room_ok top m -> oexp_ok (FP m - top) m x -> oexp_ok (FP m - top) m y ->
@@ -1198,7 +1233,7 @@ Ltac close_with G :=
 
 Theorem eval_opd_props o : eval_spec o.
 Proof.
-  induction o as [z|i|op x IHx y IHy|u x IHx|g]; intros top rg keep m Hr L Ro O T m'.
+  induction o as [z|i|op x IHx y IHy|u x IHx|g|yj]; intros top rg keep m Hr L Ro O T m'.
   - (* literal *)
     split; [apply agree_refl|]. split; [reflexivity|]. intros c bub p Ev _. cbn [eval_opd] in Ev. inversion Ev; subst.
     cbn [size]. replace (p + 0) with p by lia. apply runs_refl.
@@ -1298,7 +1333,7 @@ Proof.
       - (* pos *)
         assert (Vp : wval m o = wval m x).
         { unfold o. cbn [wval]. rewrite <- (sgn_wval _ m x (lo_wf m L) O). apply (wrap_sgn w Hw1). exact Rx. }
-        destruct x as [z|i|op' x1 x2|u' x1|g].
+        destruct x as [z|i|op' x1 x2|u' x1|g|yj'].
         + (* a literal: `mov [rg], z` *)
           unfold m3, ucode, b. cbn [bub_of sym_of pop_value snd is_state_of].
           split; [apply Asw|]. split.
@@ -1327,7 +1362,11 @@ Proof.
           * rewrite (lw_sw_same w Hw1) by exact Ir0. rewrite Vp, Vg. apply (wrap_small w). exact Rx.
           * intros q Pq. cbn [plc res_ins res_sym regaddr] in Pq. destruct Pq as [Cq _].
             pose proof (act_mov w code cmem q m2 (ra rg) (St (a_glob R g)) _ Cq (oval_st w cmem m2 _ Ig) Ir1) as Am.
-            cbn [size]. replace (q + (1 + 0)) with (q + 1) by lia. apply (runs_next act _ _ None Am). }
+            cbn [size]. replace (q + (1 + 0)) with (q + 1) by lia. apply (runs_next act _ _ None Am).
+        + unfold m3, ucode, b in *. cbn [bub_of sym_of pop_value snd is_state_of] in *. rewrite reg_eqb_refl.
+          split; [exact A12|]. split.
+          * rewrite Vp. cbn [symval] in S2. rewrite Ir1 in S2. injection S2 as S2'. exact S2'.
+          * intros q _. cbn [size]. replace (q + 0) with q by lia. apply runs_refl. }
     destruct U as [A3 [V3 C3]].
     destruct (push_props top rg keep m m3 Hr L Ro A3 Hk) as [A6 [V6 C6]].
     split; [exact A6|]. split.
@@ -1366,6 +1405,9 @@ Proof.
         cbn [size]. replace (p + (1 + 0)) with (p + 1) by lia. apply (runs_next act _ _ None A).
     + split; [apply agree_refl|]. split; [reflexivity|]. intros c bub p Ev _. inversion Ev; subst.
       cbn [size]. replace (p + 0) with p by lia. apply runs_refl.
+  - (* a byte-sized local read as an int *)
+    split; [apply agree_refl|]. split; [reflexivity|]. intros c bub p Ev _. cbn [eval_opd] in Ev. inversion Ev; subst.
+    cbn [size]. replace (p + 0) with p by lia. apply runs_refl.
 Qed.
 
 (* ---------- comparison operands ---------- *)
@@ -2347,7 +2389,7 @@ Proof.
   destruct b0 as [z|[| | | | | |?|?]|l|c|r'|x0]; try exact IH; destruct o as [z|r0|l|c|r'|x0]; try exact IH. cbn [app]. now rewrite IH.
 Qed.
 Lemma pop_value_stores r b : store_offs (fst (pop_value r b)) = [].
-Proof. destruct b; reflexivity. Qed.
+Proof. destruct b as [|[]| |]; reflexivity. Qed.
 Lemma zmul_mono (a b : nat) (ws : Z) : 0 <= ws -> (a <= b)%nat -> Z.of_nat a * ws <= Z.of_nat b * ws.
 Proof. intros H L. apply Z.mul_le_mono_nonneg_r; lia. Qed.
 
@@ -2369,7 +2411,7 @@ Proof.
         pose proof (zmul_mono 1 M ws ltac:(lia) HM). unfold T. lia.
       + intros [I|[_ ->]]; apply in_or_app; [left; exact I | right; left; unfold T; lia].
     - split; [exact F|]. intros [I|[X _]]; [exact I | discriminate]. }
-  induction o as [z|i|op x IHx y IHy|u x IHx|g]; intros top r keep offs T.
+  induction o as [z|i|op x IHx y IHy|u x IHx|g|yj]; intros top r keep offs T.
   - split; [constructor | intros H; exfalso; apply H; reflexivity].
   - split; [constructor | intros H; exfalso; apply H; reflexivity].
   - unfold offs, T. cbn [eval_opd temps]. set (kx := negb (is_safe y)).
@@ -2383,7 +2425,7 @@ Proof.
     set (tx := temps x kx) in *. set (ty := temps y false) in *.
     set (k := if keep then 1%nat else 0%nat).
     set (M := Nat.max (Nat.max tx (d + ty)) k).
-    assert (Hd : (d <= tx)%nat) by (unfold d, tx, pushed; destruct x, kx; cbn [is_safe is_glob negb andb orb temps]; lia).
+    assert (Hd : (d <= tx)%nat) by (unfold d, tx, pushed; destruct x, kx; cbn [is_safe is_vac is_glob negb andb orb temps]; lia).
     assert (E2 : Z.of_nat (d + ty) * ws = Z.of_nat d * ws + Z.of_nat ty * ws) by (rewrite Nat2Z.inj_add; ring).
     pose proof (zmul_mono tx M ws ltac:(lia) ltac:(unfold M; lia)) as L1.
     pose proof (zmul_mono (d + ty) M ws ltac:(lia) ltac:(unfold M; lia)) as L2.
@@ -2424,6 +2466,7 @@ Proof.
   - subst offs T. destruct keep; cbn [eval_opd fst store_offs temps]; fold ws.
     + change (Z.of_nat 1) with 1. split; [constructor; [lia | constructor] | intros _; left; lia].
     + split; [constructor | intros N; contradiction N; reflexivity].
+  - split; [constructor | intros H; exfalso; apply H; reflexivity].
 Qed.
 
 (* ================================================================================= *)
